@@ -249,6 +249,12 @@ impl DateTime {
                 "RFC 3339 string cannot be shorter than 20 chars".to_string(),
             ));
         }
+        // The fields up to the seconds are read at fixed byte positions
+        if !string.as_bytes()[..20].is_ascii() {
+            return Err(create_invalid_format(
+                "RFC 3339 string contains unexpected characters".to_string(),
+            ));
+        }
 
         let year = string[0..4].parse::<i32>().map_err(|_| {
             create_invalid_format("Failed parsing year from RFC 3339 string".to_string())
